@@ -9,14 +9,18 @@
 EXTENDS Naturals, Sequences, FiniteSets, TLC, Json, IOUtils
 CONSTANTS Export
 
-Protos == {"raw", "json", "pb", "thriftbin", "thriftstruct"}
+Protos == {"raw", "json", "pb", "thriftbin", "thriftstruct", "wsjson", "wspb"}
 Codecs == {"j", "x", "f", "s", "p", "t"}     \* json, xml, form, plain, protobuf, thrift
 Pipes  == {"", "g", "m", "gm", "mg"}         \* gzip / md5 filters, outermost first
 \* the JSON protocol carries the body as a JSON string: text codecs only;
 \* the thrift struct protocol carries a thrift struct in place: thrift codec only, no filter pipe
-Capable(p, c) == /\ (p = "json" => c \notin {"p", "t"})
+\* "wsjson" / "wspb": the websocket mixer end to end (http upgrade over loopback TCP, websocket frames, the json /
+\* protobuf sub-protocol); the json sub-protocol is a text protocol and does not carry filtered (binary) bodies
+Capable(p, c) == /\ (p \in {"json", "wsjson"} => c \notin {"p", "t"})
+                 /\ (p = "wspb" => c # "t")
                  /\ (p = "thriftstruct" => c = "t")
-PipeOK(p, pp) == p = "thriftstruct" => pp = ""
+PipeOK(p, pp) == /\ (p \in {"thriftstruct", "wsjson"} => pp = "")
+                 /\ (p = "wspb" => pp \in {"", "g"})
 Profiles == { [sessions |-> 1, gor |-> 1,  size |-> 0,     hold |-> 0],
               [sessions |-> 2, gor |-> 4,  size |-> 255,   hold |-> 3],
               [sessions |-> 1, gor |-> 16, size |-> 4096,  hold |-> 3],
